@@ -1302,7 +1302,7 @@ var vtACSNames = map[byte]rune{
 	'a': RuneCkBoard,
 	'b': '␉', // VT100, Not defined by terminfo
 	'c': '␌', // VT100, Not defined by terminfo
-	'd': '␋', // VT100, Not defined by terminfo
+	'd': '␍', // VT100, Not defined by terminfo
 	'e': '␊', // VT100, Not defined by terminfo
 	'f': RuneDegree,
 	'g': RunePlMinus,
